@@ -236,6 +236,32 @@ pub fn run_case(a: &Args, tag: &'static str, idx: u64, acc: &mut Acc) {
             }
             acc.count("pass_through_comparisons", 1);
         }
+        // now and then: a setter issued while a write handle to the same file is open must survive the handle's
+        // publish (flush/drop): `created` and `accessed` are not content-related
+        if p != "/d" && where_ != "lower-only" && rng.chance(1, 4) {
+            let f2 = if rng.chance(1, 2) { 0 } else { 2 };
+            let t2 = *rng.pick(&values);
+            let served_from_mem = !cfg.has_phys();
+            if let Ok(mut w) = vp.append_file() {
+                let extra = if rng.chance(1, 2) { vec![b'!'] } else { vec![] };
+                let _ = w.write_all(&extra);
+                if rng.chance(1, 2) {
+                    let _ = w.flush();
+                }
+                let r = if f2 == 0 { vp.set_creation_time(t2) } else { vp.set_access_time(t2) };
+                drop(w);
+                contents.get_mut(p).unwrap().extend_from_slice(&extra);
+                log.push(format!("append_file({}) open; set_{}_time({:?}) => {:?}; drop handle", p, FIELD[f2], t2.duration_since(SystemTime::UNIX_EPOCH).map(|d| d.as_nanos() as i128).unwrap_or(-1), r.as_ref().map_err(|e| e.to_string())));
+                if r.is_ok() && served_from_mem {
+                    if let Ok(m) = md(&vp) {
+                        if times(&m)[f2] != Some(t2) {
+                            acc.violate(Violation { property: "C19", signature: format!("setter-lost-at-handle-publish|set_{}|{}|{}", FIELD[f2], where_, cfg.family()), summary: format!("set_{}_time({}) issued while an append handle was open is lost when the handle is dropped: metadata reports {:?} instead of {:?}", FIELD[f2], p, times(&m)[f2], t2), detail: mk(&log, J::Null), order: order + step as u64 });
+                        }
+                    }
+                }
+                acc.count("setters_inside_open_write_session", 1);
+            }
+        }
         // now and then: an append must preserve `created` on memory-backed entries (and not disturb the bytes model)
         if p != "/d" && rng.chance(1, 4) {
             let b4 = md(&vp).ok();
@@ -273,7 +299,7 @@ pub fn run_case(a: &Args, tag: &'static str, idx: u64, acc: &mut Acc) {
 }
 
 pub fn run(a: &Args) -> Acc {
-    let n = a.n(3000, 50000);
+    let n = a.n(30000, 400000);
     let mut acc = par_run(a, "c19", n, |a, idx, acc| run_case(a, "c19", idx, acc));
     acc.note("calibrated_physical_values", format!("{} of {} candidate values round-trip on the host filesystem", calibrated().len(), candidates().len()));
     acc
